@@ -205,7 +205,13 @@ func (s *JavaFullListener) EnterInterfaceMethodDeclaration(ctx *parser.Interface
 		common_listener.BuildAnnotationForMethod(ctx.GetParent().GetParent().GetChild(0).(*parser.ModifierContext), &currentMethod)
 	}
 
-	position := BuildPosition(ctx.BaseParserRuleContext, name)
+	// as for a class method: the columns are those of the name (the method rename rewrites them)
+	position := core_domain.CodePosition{
+		StartLine:         bodyDecl.Identifier().GetStart().GetLine(),
+		StartLinePosition: bodyDecl.Identifier().GetStart().GetColumn(),
+		StopLine:          ctx.GetStop().GetLine(),
+		StopLinePosition:  bodyDecl.Identifier().GetStart().GetColumn() + len(name),
+	}
 
 	method := &core_domain.CodeFunction{Name: name, ReturnType: typeType, Position: position}
 
